@@ -36,6 +36,8 @@ def dec(v):
 def main():
     hist = json.load(sys.stdin)
     objs = {}
+    texts = {}
+    fresh_check = os.environ.get("C01_FRESH") == "1"
     out = []
     for op in hist:
         kind, ident = op[0], op[1]
@@ -43,6 +45,7 @@ def main():
             try:
                 ev, _ = common.quiet(lambda: ExperimentEvaluator(op[2]))
                 objs[ident] = ev
+                texts[ident] = op[2]
                 out.append("ok")
             except Exception as ex:  # noqa
                 out.append({"e": common.classify_exc(ex)})
@@ -52,6 +55,7 @@ def main():
                 continue
             try:
                 common.quiet(lambda: objs[ident].recompile(op[2]))
+                texts[ident] = op[2]
                 out.append("ok")
             except Exception as ex:  # noqa
                 out.append({"e": common.classify_exc(ex)})
@@ -60,7 +64,13 @@ def main():
                 out.append("no-such-evaluator")
                 continue
             env = {k: dec(v) for k, v in op[2]}
-            out.append(common.outcome_of(lambda: objs[ident](**env)))
+            r = common.outcome_of(lambda: objs[ident](**env))
+            if fresh_check:
+                # "on any evaluator built from the same source text": a brand-new evaluator must agree
+                f = common.outcome_of(lambda: ExperimentEvaluator(texts[ident])(**env))
+                if f != r:
+                    r = {"used": r, "fresh": f}
+            out.append(r)
     sys.stdout.write(json.dumps(out, ensure_ascii=True) + "\n")
 
 
